@@ -13,7 +13,7 @@ META = {
                      "float constants such as 1/N are exact binary values: identities are stated with 1e-8 tolerances and coordinates in [-100,100] nm"],
     "assumptions": ["2 frames x 3 atoms for the coordinate descriptors; one 6-residue topology for contacts; mass vectors from a catalogue of 4"],
     "out": ["eigen-decompositions themselves (LAPACK)", "DRID (drid.pyx / dridkernels.cpp / moments.cpp) and nematic order (eigen-solver heavy) not encoded in this round",
-            "np.histogram binning (numpy library)", "static_dielectric / kappa_T unit algebra", "compute_rdf_t"],
+            "np.histogram binning (numpy library)", "static_dielectric / kappa_T unit algebra", "compute_rdf_t beyond its pair chunking"],
 }
 
 
@@ -39,6 +39,11 @@ def obligations():
                 o.append(Obl(f"C16.contacts.{scheme}.{mode}.{'soft' if soft else 'min'}", "py", H, "contacts", ["mdtraj.geometry.contact.compute_contacts"], "6-residue topology, one symbolic distance per atom pair and frame",
                              "column i = (soft) minimum over exactly the scheme's atom pairs of residue pair i; residue_pairs as documented", 300,
                              params={"scheme": scheme, "mode": mode, "soft_min": soft}, tiers=("quick", "thorough") if quick else ("thorough",)))
+    for scheme in ("ca", "closest-heavy", "sidechain"):
+        o.append(Obl(f"C16.contacts.{scheme}.nonperiodic", "py", H, "contacts", ["mdtraj.geometry.contact.compute_contacts"], "same topology, periodic=False", "every distance is measured under the caller's periodic flag; same minima", 300,
+                     params={"scheme": scheme, "mode": "explicit", "soft_min": False, "periodic": False}))
+    o.append(Obl("C16.rdf_t.chunks", "xh", "harness.c16_py", "rdf_t_chunks", ["mdtraj.geometry.rdf.compute_rdf_t"], "3..4 atoms (3..6 pairs + self pairs), n_concurrent_pairs 1..11, self_correlation on/off",
+                 "every pair is handed to the distance routine exactly once and the result does not depend on the chunk size", 300))
     return o
 
 
